@@ -10,7 +10,8 @@ checks, na = [], []
 for p in props:
     pid = p["id"]
     path = os.path.join(HERE, "vf", "props", pid.lower() + ".py")
-    m = META["checks"].get(pid)
+    mp = os.path.join(HERE, "vf", "props", pid.lower() + ".meta.json")
+    m = json.load(open(mp)) if os.path.exists(mp) else None
     if os.path.exists(path) and m and m.get("claimed", True):
         checks.append({
             "property_id": pid,
@@ -24,7 +25,7 @@ for p in props:
             "technique": m["technique"],
         })
     else:
-        na.append({"property_id": pid, "reason": (m or {}).get("na_reason", "check not built yet in this session (work in progress); see DESIGN.md §3/" + pid)})
+        na.append({"property_id": pid, "reason": META.get("na_reasons", {}).get(pid, "check not built yet in this session (work in progress); see DESIGN.md §3/" + pid)})
 man = {
     "version": 1,
     "setup_cmd": META["setup_cmd"],
